@@ -281,6 +281,7 @@ def setup(ctx):
     ctx.require('reach.magnetic_ff.formfactor_0', 1, 'j0/J evaluations must go through formfactor_0')
     ctx.require('reach.magnetic_ff.formfactor_n', 1, 'j2/j4/j6 evaluations must go through formfactor_n')
     ctx.require('reach.cromermann.atstol', 1, 'f0 evaluations must go through CromerMannFormula.atstol')
+    ctx.require('cm.large_array_calls', 1, 'f0 must have been asked for arrays of tens of thousands of Q values')
 
 
 def _table(ctx, name):
@@ -785,6 +786,23 @@ def check_cm_entry(ctx, case):
                           % (text, bad, np.asarray(got).ravel()[bad] if bad >= 0 else np.shape(got),
                              ref[bad][0] if bad >= 0 else len(ref)), group='cm', field='expression',
                           looks_like=_like_cm(ctx, got))
+    # the same Q values as a very long vector and as a detector image (hundreds of thousands of pixels): every element
+    # is the value the short vector call gives for that Q, and the shape is the shape of the argument
+    short = np.asarray(cromermann.fxrayatq(name, Q), dtype=float)
+    if short.shape == np.shape(Q) and short.size:
+        reps = 70000 // short.size + 1 + ((case.get('qseed') or 0) % 3) * 40
+        for label, big in (('a vector of %d Q values' % (reps * short.size), np.tile(Q, reps)),
+                           ('a %d x %d image of Q values' % (reps, short.size), np.tile(Q, (reps, 1)))):
+            ctx.evaluated(1, 'cm-large-array')
+            ctx.count('cm.large_array_calls')
+            got = np.asarray(cromermann.fxrayatq(name, big), dtype=float)
+            want = np.tile(short, reps) if big.ndim == 1 else np.tile(short, (reps, 1))
+            if got.shape != big.shape:
+                ctx.violation('fxrayatq(%r, <%s>) has shape %r' % (name, label, got.shape), group='cm', field='large-array')
+            elif not np.allclose(got, want, rtol=1e-12, atol=0, equal_nan=True):
+                k = int(np.argmax(~np.isclose(got, want, rtol=1e-12, atol=0, equal_nan=True)))
+                ctx.violation('fxrayatq(%r, <%s>) differs from the short vector call: element %d is %r, the same Q alone '
+                              'gives %r' % (name, label, k, got.ravel()[k], want.ravel()[k]), group='cm', field='large-array')
     ctx.observe('f0_at_0_minus_electrons', abs(ref[0][0] - (Zfile - (split[1] if split else 0))))
 
 
